@@ -111,11 +111,20 @@ def Grant.expired (g : Grant) (time : Nat) : Bool :=
   | some t => decide (t < time)
   | none => false
 
+/-- authz.NewGrant accepts the expiration of a re-saved grant only if it lies strictly after the block time -/
+def Grant.resavable (g : Grant) (time : Nat) : Bool :=
+  match g.expiry with
+  | some t => decide (time < t)
+  | none => true
+
 /-- utils.ValidateMsgAuthorization with Deposit/WithdrawAuthorization.Accept -/
 def useGrant (s : State) (granter grantee kind : Nat) (amount : Int) : Option State := do
   let g ← findGrant s granter grantee kind
   chk (!g.expired s.time)
   chk (decide (0 ≤ g.limit - amount))
+  -- a grant that is used up is deleted; one that is used in part is saved again, and authz.NewGrant refuses an
+  -- expiration that is not strictly after the block time (so a partial use at exactly the expiry time fails)
+  chk (g.limit - amount = 0 || g.resavable s.time)
   let s1 := dropGrant s granter grantee kind
   pure (if g.limit - amount = 0 then s1 else { s1 with grants := s1.grants ++ [{ g with limit := g.limit - amount }] })
 
